@@ -36,6 +36,8 @@ def make(o):
                        update_freq=o.get("SF", 1), ekfac_svd=o.get("ekfac", False),
                        add_ggt=o.get("add_ggt", False),
                        memory_alloc=o.get("memory_alloc", None)) if so == "sketchy" else None
+  if so == "sketchy" and o.get("_sk_obj") is not None:
+    sk = o["_sk_obj"]          # a pre-built (possibly derived) sketchy.Options object, in-process callers only
   soo = second_order.Options(
       merge_dims=o.get("merge_dims", 1024),
       second_order_type=(second_order.SecondOrderType.SKETCHY if so == "sketchy"
